@@ -37,6 +37,7 @@ class Conn:
     def __init__(self):
         self.events = 0
         self.lost = 0
+        self.transport = None  # (the owner's current transport: connection_lost compares against it)
 
     def event_received(self, ev):
         self.events += 1
@@ -62,6 +63,7 @@ async def run_sequence(seq):
     p = InsecureHomeKitProtocol(conn)
     t = Transport(loop)
     t.protocol = p
+    conn.transport = t
     p.connection_made(t)
     tasks = {}
     futs = {}
